@@ -187,6 +187,10 @@ def taxaBlockOK (ts : List T) (text : Txt) : Bool :=
   | some labs, some n => !hasDup labs && sameSet labs (ts.flatMap T.tipNames) && n == (labs.length : Int)
   | _, _ => false
 
+/-- does the Nexus text carry a TRANSLATE command (what `--translate` asks for) -/
+def hasTranslate (text : Txt) : Bool :=
+  (Nex.scan text).any fun t => match t with | .kw .translate _ => true | _ => false
+
 /-- The Newick text of a tree (with its final ';') goes through the Nexus lexer unchanged: it is cut
     into tokens that are all allowed inside a TREE command (no keyword, no line end), whose literals
     concatenate back to the text without the ';', and it does not start with a comment. -/
